@@ -147,8 +147,10 @@ def main():
     ev = dict(property_id=pid, tier=args.tier, seed=seed, level='proof', coverage=cov,
               assumptions=list(getattr(mod, 'ASSUMPTIONS', [])) + res.assumptions,
               wall_s=round(time.time() - t0, 2), violations=len(violations) + (1 if broken and not violations else 0))
-    os.makedirs(os.path.join(common.ROOT, 'evidence'), exist_ok=True)
-    json.dump(ev, open(os.path.join(common.ROOT, 'evidence', pid + '.json'), 'w'), indent=1, default=repr)
+    # runs against a scratch checkout (YAQL_REPO) must not overwrite the evidence of /repo
+    evdir = os.path.join(common.ROOT, 'evidence') if common.REPO == '/repo' else os.path.join(common.ROOT, 'replays', 'scratch-evidence')
+    os.makedirs(evdir, exist_ok=True)
+    json.dump(ev, open(os.path.join(evdir, pid + '.json'), 'w'), indent=1, default=repr)
 
     dirty_after = common.repo_dirty()
     if dirty_after != dirty_before:
